@@ -449,7 +449,10 @@ func staticHeaderScan(c *Ctx) {
 		root = "/repo"
 	}
 	assign := regexp.MustCompile(`\.(ID|SerialNumber|SubPackageSum|SubPackageNo|TerminalPhoneNo|bcdTerminalPhoneNo)\b[^=!<>:\n]*(=[^=]|\+\+|--)`)
+	// whole-struct writes through which a delivered header could be replaced or overwritten
+	whole := regexp.MustCompile(`(\*\s*(h|header|initHeader|hdr)\s*=[^=])|(\.Header\s*=[^=])|(\.JTMessage\s*=[^=])`)
 	var bad []string
+	nfiles, sawDecode, nCalls := 0, false, 0
 	for _, dir := range []string{"service", "protocol/jt808"} {
 		files, _ := filepath.Glob(filepath.Join(root, dir, "*.go"))
 		for _, f := range files {
@@ -460,21 +463,39 @@ func staticHeaderScan(c *Ctx) {
 			if err != nil {
 				continue
 			}
+			nfiles++
 			lines := strings.Split(string(src), "\n")
 			fn := ""
 			for i, l := range lines {
 				if strings.HasPrefix(l, "func ") {
 					fn = l
 				}
+				inDecode := strings.HasSuffix(f, "protocol/jt808/jt808.go") && strings.HasPrefix(fn, "func (h *Header) decode(")
+				if inDecode {
+					sawDecode = true
+				}
 				code := l
 				if k := strings.Index(code, "//"); k >= 0 {
 					code = code[:k]
 				}
-				if assign.MatchString(code) && !strings.Contains(code, ":=") && !strings.Contains(code, "{") &&
-					!(strings.HasSuffix(f, "protocol/jt808/jt808.go") && strings.HasPrefix(fn, "func (h *Header) decode(")) {
+				isWhole := whole.MatchString(code)
+				if isWhole {
+					// building a NEW message from a fresh local copy (`x := *old` a few lines above, then `.Header = &x`)
+					// is not a write to a delivered message
+					if k := strings.Index(code, "= &"); k >= 0 {
+						name := strings.TrimSpace(code[k+3:])
+						for j := i - 1; j >= 0 && j >= i-12; j-- {
+							if strings.Contains(lines[j], name+" := *") {
+								isWhole = false
+							}
+						}
+					}
+				}
+				if (assign.MatchString(code) || isWhole) && !inDecode {
 					bad = append(bad, fmt.Sprintf("%s:%d: %s", strings.TrimPrefix(f, root+"/"), i+1, strings.TrimSpace(l)))
 				}
 				if dir == "service" && strings.Contains(code, ".Decode(") {
+					nCalls++
 					fresh := false
 					for j := i - 1; j >= 0 && j >= i-3; j-- {
 						if strings.Contains(lines[j], "jt808.NewJTMessage()") {
@@ -490,8 +511,15 @@ func staticHeaderScan(c *Ctx) {
 	}
 	c.Eval("static header-field scan", true)
 	c.Count("static/header-fields")
+	c.Extra["header_scan"] = map[string]any{"files": nfiles, "saw_header_decode": sawDecode, "decode_call_sites": nCalls}
+	// fail closed: a scan that saw nothing proves nothing
+	if nfiles < 10 || !sawDecode || nCalls < 3 {
+		c.Violate(Violation{Signature: "C09/header-scan-empty", What: "the source scan behind 'header fields are values' did not see what it must see",
+			Input: "hold -", Observed: fmt.Sprintf("root=%s files=%d Header.decode seen=%v Decode call sites in service=%d", root, nfiles, sawDecode, nCalls),
+			Required: "at least 10 non-test files of service/ and protocol/jt808/, func (h *Header) decode, at least 3 Decode call sites in service/"})
+	}
 	if len(bad) > 0 {
-		c.Violate(Violation{Signature: "C09/header-field-assigned", What: "a listed header field of a possibly delivered message is assigned outside Header.decode (or parse decodes into a reused JTMessage)",
+		c.Violate(Violation{Signature: "C09/header-field-assigned", What: "a listed header field of a possibly delivered message is assigned outside Header.decode, a header / JTMessage is overwritten as a whole, or parse decodes into a reused JTMessage",
 			Input: "hold -", Observed: Trunc(strings.Join(bad, " ; "), 3000), Required: "message id, phone, serial and package numbers are written only by Header.decode on a fresh JTMessage"})
 	}
 }
